@@ -162,3 +162,28 @@ def refused_operations(name, o, rng):
             attempt("add_platform(valid, channel in use)", lambda: o.add_platform(gen.plat_info(rng), int(o._platformMap[0])))
         attempt("remove_platform(out of range)", lambda: o.remove_platform(len(o._platforms) + 3))
     return done
+
+
+def poison_leading_component(name, o, rng):
+    """put +-inf into the leading component of one present frame of every track (the library treats a non-finite leading
+    component as a missing frame -- a documented limitation, DESIGN 3.4; the size the block reports and the bytes it
+    writes must still agree).  Returns True if something was changed."""
+    if name in TRACK_FIELDS:
+        tracks, tname = [o], name
+    elif name in TRACKS_OF:
+        tracks, tname = list(getattr(o, TRACKS_OF[name][0])), TRACKS_OF[name][1]
+    else:
+        return False
+    done = False
+    for t in tracks:
+        a = getattr(t, TRACK_FIELDS[tname][0][0])
+        lead = a if a.ndim == 1 else a[:, 0]
+        present = [f for f in range(a.shape[0]) if not np.isnan(lead[f])]
+        if present and a.flags.writeable:
+            f = rng.choice(present)
+            if a.ndim == 1:
+                a[f] = rng.choice([np.inf, -np.inf])
+            else:
+                a[f, 0] = rng.choice([np.inf, -np.inf])
+            done = True
+    return done
